@@ -83,14 +83,32 @@ impl Body for ScriptBody {
     }
 }
 
-/// Minimal executor: our bodies wake immediately, so a plain poll loop suffices; a future that
-/// stays Pending for 100 000 polls is reported as a hang.
+/// Minimal executor with a waker DISCIPLINE: our scripted bodies wake the task before they return
+/// `Pending`, so a plain poll loop suffices — but a `Pending` during which nobody woke the task is a
+/// lost wake-up (a real executor would park the task forever) and is reported as a hang at once
+/// (seed C17c: `return Poll::Pending` right after the inner body yielded data). A future that stays
+/// Pending for 100 000 polls is reported as a hang too.
+struct CountWaker(std::sync::atomic::AtomicUsize);
+impl std::task::Wake for CountWaker {
+    fn wake(self: Arc<Self>) {
+        self.0.fetch_add(1, std::sync::atomic::Ordering::SeqCst);
+    }
+    fn wake_by_ref(self: &Arc<Self>) {
+        self.0.fetch_add(1, std::sync::atomic::Ordering::SeqCst);
+    }
+}
 pub fn block_on<F: Future>(f: F) -> Option<F::Output> {
     let mut f = Box::pin(f);
-    let mut cx = Context::from_waker(Waker::noop());
+    let cw = Arc::new(CountWaker(std::sync::atomic::AtomicUsize::new(0)));
+    let waker = Waker::from(cw.clone());
+    let mut cx = Context::from_waker(&waker);
     for _ in 0..100_000 {
+        let before = cw.0.load(std::sync::atomic::Ordering::SeqCst);
         if let Poll::Ready(v) = f.as_mut().poll(&mut cx) {
             return Some(v);
+        }
+        if cw.0.load(std::sync::atomic::Ordering::SeqCst) == before {
+            return None;
         }
     }
     None
